@@ -114,9 +114,86 @@ def _conjuncts(f, out):
     return out
 
 
-def prove(pc, goal, use_cvc5=True, timeout_ms=None):
+class _TooMany(Exception):
+    pass
+
+
+_TRIG = {}
+
+
+def _trig(term):
+    srt = term.sort()
+    f = _TRIG.get(srt.name())
+    if f is None:
+        f = _TRIG[srt.name()] = z3.Function("Trig!" + srt.name(), srt, z3.BoolSort())
+    return f(term)
+
+
+def _alternatives(ant):
+    """top-level case analysis of an antecedent: And(a, Or(b, c)) -> [And(a, b), And(a, c)]"""
+    alts = [[]]
+    for c in _conjuncts(ant, []):
+        if z3.is_or(c):
+            alts = [x + [d] for x in alts for d in c.children()]
+        else:
+            alts = [x + [c] for x in alts]
+        if len(alts) > 6:
+            raise _TooMany()
+    return alts
+
+
+def split_goal(goal, hyps=None, out=None, depth=0, cap=24):
+    """(sound) decomposition of a goal into sub-goals whose conjunction is the goal: universally quantified goals
+    are skolemised (their pattern terms are kept visible to the e-matcher through a `Trig` atom), conjunctions are
+    proved conjunct by conjunct, disjunctive guards case by case.  -> [(extra hypotheses, sub-goal)]"""
+    hyps = hyps or []
+    out = out if out is not None else []
+    if len(out) > cap:
+        raise _TooMany()
+    if z3.is_quantifier(goal) and goal.is_forall():
+        vs = [z3.Const(f"sk{depth}!{goal.var_name(i)}", goal.var_sort(i)) for i in range(goal.num_vars())]
+        rev = list(reversed(vs))
+        trigs = []
+        for i in range(goal.num_patterns()):
+            pat = goal.pattern(i)
+            for t in pat.children():
+                trigs.append(_trig(z3.substitute_vars(t, *rev)))
+        split_goal(z3.substitute_vars(goal.body(), *rev), hyps + trigs, out, depth + 1, cap)
+    elif z3.is_implies(goal):
+        for alt in _alternatives(goal.arg(0)):
+            split_goal(goal.arg(1), hyps + alt, out, depth, cap)
+    elif z3.is_and(goal):
+        for c in goal.children():
+            split_goal(c, hyps, out, depth, cap)
+    else:
+        out.append((hyps, goal))
+    return out
+
+
+def prove(pc, goal, use_cvc5=True, timeout_ms=None, split=True):
     """Is `goal` a consequence of the path condition `pc`?"""
     t0 = time.time()
+    if split and (z3.is_quantifier(goal) or z3.is_and(goal) or z3.is_implies(goal)):
+        # first try the goal piece by piece (each piece small and with its trigger terms in sight); only if a piece
+        # stays undecided is the goal tried as a whole
+        try:
+            parts = split_goal(goal)
+        except _TooMany:
+            parts = []
+        if len(parts) > 1:
+            budget = (timeout_ms or Z3_TIMEOUT_MS)
+            ok = True
+            for hy, g in parts:
+                r = prove(pc + hy, g, use_cvc5=False, timeout_ms=max(1500, budget // 3), split=False)
+                if r.status != "proved":
+                    ok = False
+                    break
+                if time.time() - t0 > 3 * budget / 1000:
+                    ok = False
+                    break
+            if ok:
+                STATS["split"] = STATS.get("split", 0) + 1
+                return Result("proved", "z3", time.time() - t0)
     # syntactic shortcut: every conjunct of the goal is literally one of the hypotheses (an invariant
     # that a frame leaves untouched is the *same* term thanks to deterministic bound names)
     have = set()
